@@ -25,6 +25,31 @@ func LexDump(src []byte) (dump string, conv string, panicked bool) {
 			conv = convTable(convSet)
 		}
 	}()
+	// the lexer advances the column by the converted SOURCE text of a short string: every candidate text between
+	// two equal quotes gets an entry (a superset is harmless, the table is only looked up)
+	for i := 0; i < len(src); i++ {
+		q := src[i]
+		if q != '"' && q != '\'' {
+			continue
+		}
+		for j := i + 1; j < len(src); j++ {
+			c := src[j]
+			if c == '\\' {
+				j++
+				continue
+			}
+			if c == q {
+				raw := string(src[i+1 : j])
+				if raw != "" {
+					convSet[raw] = utf8.RuneCountInString(codingconv.ConvertStrToUtf8(raw))
+				}
+				break
+			}
+			if c == '\n' || c == '\r' {
+				break
+			}
+		}
+	}
 	l := lexer.NewLexer(append([]byte(nil), src...), "t")
 	var cur []string
 	l.SetErrHandler(func(e lexer.ParseError) {
